@@ -28,7 +28,8 @@ Srcs0 == <<
    fields |-> [x |-> A("int", FALSE), n |-> A("int", FALSE), r |-> R(FALSE, "tt")],
    vals |-> [x |-> V(1), n |-> V(1), r |-> Ids(<<"a">>)]],
   \* an attribute named like a relationship of the collection and a relationship named like an attribute
-  [id |-> "4", name |-> "crosskind", shared |-> FALSE,
+  \* (its id "0" stands for the empty id: a resource that was never given one)
+  [id |-> "0", name |-> "crosskind", shared |-> FALSE,
    fields |-> [r |-> A("string", FALSE), x |-> R(TRUE, "tt"), n |-> A("int", TRUE)],
    vals |-> [r |-> V(1), x |-> Ids(<<"a">>), n |-> V(2)]],
   \* a soft resource created on the collection's own *Type
@@ -51,7 +52,7 @@ PtrAlphabet == NOps \cup { Op("Add", NoTyp, 1, "", "", NoDef, NoVal), Op("Remove
 Alphabet ==
        { Op("SetType", t, 0, "", "", NoDef, NoVal) : t \in {TBase, TOther} }
   \cup { Op("Add", NoTyp, s, "", "", NoDef, NoVal) : s \in 1..Len(Srcs0) }
-  \cup { Op("Remove", NoTyp, 0, id, "", NoDef, NoVal) : id \in {"1", "2", "3", "9"} }
+  \cup { Op("Remove", NoTyp, 0, id, "", NoDef, NoVal) : id \in {"1", "2", "3", "9", "0"} }
   \cup { Op("AddAttr", NoTyp, 0, "", p[1], p[2], NoVal) :
             p \in { <<"y", A("bool", FALSE)>>, <<"x", A("string", FALSE)>>, <<"", A("string", FALSE)>>,
                     <<"w", A("invalid", FALSE)>>, <<"n", A("int", TRUE)>>, <<"z", A("int", TRUE)>> } }
